@@ -374,7 +374,9 @@ class GriffeLoader:
 
                 # Collect every imported object.
                 try:
-                    expanded.extend(self._expand_wildcard(member))  # type: ignore[arg-type]
+                    # Names imported by a wildcard are available at runtime if the wildcard import itself is
+                    # (it is not when it only exists in the stubs, or under `if TYPE_CHECKING`).
+                    expanded.extend([(*imported, member.runtime) for imported in self._expand_wildcard(member)])  # type: ignore[arg-type]
                 except (AliasResolutionError, CyclicAliasError) as error:
                     logger.debug("Could not expand wildcard import %s in %s: %s", member.name, obj.path, error)
                     continue
@@ -391,7 +393,7 @@ class GriffeLoader:
                 obj.del_member(name)
 
         # Finally we process the collected objects.
-        for new_member, alias_lineno, alias_endlineno in expanded:
+        for new_member, alias_lineno, alias_endlineno, alias_runtime in expanded:
             overwrite = False
             already_present = new_member.name in obj.members
             self_alias = (
@@ -404,7 +406,9 @@ class GriffeLoader:
             if already_present:
                 old_member = obj.get_member(new_member.name)
                 old_lineno = old_member.alias_lineno if old_member.is_alias else old_member.lineno
-                overwrite = (alias_lineno or 0) > (old_lineno or 0)
+                # A wildcard import that is not there at runtime never takes precedence (when it comes
+                # from the stubs, its line number cannot be compared with the lines of the module anyway).
+                overwrite = alias_runtime and (alias_lineno or 0) > (old_lineno or 0)
 
             # 1. If the expanded member is an alias with a target path equal to its own path, we stop.
             #    This situation can arise because of Griffe's mishandling of (abusive) wildcard imports.
@@ -420,6 +424,7 @@ class GriffeLoader:
                     new_member.path if new_member.is_alias else new_member,
                     lineno=alias_lineno,
                     endlineno=alias_endlineno,
+                    runtime=alias_runtime,
                     parent=obj,  # type: ignore[arg-type]
                 )
                 # Special case: we avoid overwriting a submodule with an alias pointing to it.
